@@ -87,9 +87,7 @@ func TestVerifC12Csidh(t *testing.T) {
 			xv, xc = fany.Operand(t, "xu")
 			yv, yc = fany.Operand(t, "yu")
 		case "equal":
-			if rapid.Bool().Draw(t, "same") {
-				yv, yc = xv, xc
-			}
+			yv, yc = f.DrawSecond(t, xv, xc, "y2")
 		case "modExp512":
 			yv, yc = fany.Operand(t, "e") // exponent: any 512-bit integer
 		}
@@ -230,4 +228,22 @@ func TestVerifC12Csidh(t *testing.T) {
 			}
 		}
 	})
+}
+
+// Deterministic sweep of isZero / equal over every single-bit and one-limb difference.
+func TestVerifC12CsidhPredicates(t *testing.T) {
+	defer vlib.Done()
+	f := &kit.F{Name: "csidh.fp", P: c12To(&p), Bits: 512, C: 1, Reduced: true}
+	kit.SweepPredicates(t, &kit.Preds[fp]{F: f, Type: "csidh.fp", Backend: "go", From: c12From,
+		IsZero:  func(x *fp) bool { return x.isZero() },
+		IsEqual: func(x, y *fp) bool { return x.equal(y) }})
+	for k := 0; k < 64; k++ {
+		if ctIsNonZero64(uint64(1)<<uint(k)) != 1 {
+			vlib.ReportDirect(t, "C12/csidh.fp/ctIsNonZero64/go/wrong-predicate-sweep", fmt.Sprintf("ctIsNonZero64(2^%d) = 0", k), nil)
+			return
+		}
+	}
+	if ctIsNonZero64(0) != 0 {
+		vlib.ReportDirect(t, "C12/csidh.fp/ctIsNonZero64/go/wrong-predicate-sweep", "ctIsNonZero64(0) = 1", nil)
+	}
 }
